@@ -333,9 +333,6 @@ fn worker(ctx: &mut Ctx) {
 }
 
 fn replay(doc: &Value, ctx: &mut Ctx) -> Result<(), Failure> {
-    let data = doc_bytes(doc, "hex").ok_or_else(|| {
-        Failure::new("C12", "harness", "bad-replay-doc", "replay document has no hex field".into())
-    })?;
     if doc.get("kind").and_then(|k| k.as_str()) == Some("c12-big") {
         let f = big_file(
             doc["mib"].as_u64().unwrap_or(96) as usize,
@@ -344,6 +341,9 @@ fn replay(doc: &Value, ctx: &mut Ctx) -> Result<(), Failure> {
         );
         return check(&f, 7, ctx);
     }
+    let data = doc_bytes(doc, "hex").ok_or_else(|| {
+        Failure::new("C12", "harness", "bad-replay-doc", "replay document has no hex field".into())
+    })?;
     if doc.get("kind").and_then(|k| k.as_str()) == Some("c12-garbage") {
         let cap = doc.get("cap").and_then(|k| k.as_u64()).unwrap_or(100) as usize;
         check_garbage(&data, cap, ctx)
